@@ -115,9 +115,8 @@ func runC08(seed int64, n int, dir string, tier string) *Report {
 			}
 		}
 	}
-	path := filepath.Join(dir, "cases_C08.v")
-	cf.Write(path)
-	rep.CasesFile = path
+	rep.CasesFiles = cf.Write(filepath.Join(dir, "cases_C08"))
+	rep.ShardSize = shardSize
 	return rep
 }
 
